@@ -39,6 +39,7 @@ type loopInfo struct {
 }
 
 type retInfo struct {
+	pos   token.Pos
 	reach string
 	vals  []Val
 	st    *State
@@ -743,7 +744,7 @@ func (f *Frame) execBlock(b *ssa.BasicBlock, st *State, r string) {
 			for _, rv := range i.Results {
 				vals = append(vals, f.val(rv))
 			}
-			f.rets = append(f.rets, retInfo{reach: r, vals: vals, st: st})
+			f.rets = append(f.rets, retInfo{reach: r, vals: vals, st: st, pos: i.Pos()})
 		case *ssa.Panic:
 			// reachable panic is a violation of the no-panic property
 			txt := f.srcText(i.Pos(), isCallExpr)
